@@ -13,6 +13,7 @@ import (
 	"strings"
 	"sync"
 	"sync/atomic"
+	"time"
 
 	blocks "github.com/ipfs/go-block-format"
 	"github.com/ipfs/go-cid"
@@ -461,6 +462,34 @@ func runWorkload(w *workJ) (out outJ) {
 		out.Msg = "open: " + err.Error()
 		return out
 	}
+	// OnPut callbacks are registered here, before any goroutine exists (OnPut is not one of the
+	// property's operations).  Each callback counts its invocations and gives the scheduler a
+	// chance to run somebody else (yield, every other one also a short sleep), as a listener
+	// that does a little work would.  The counters are hidden from the race detector like the
+	// history clock, so that they order nothing.
+	cbCount := make([]atomic.Uint64, len(w.Cbs))
+	out.Cb = make([]uint64, len(w.Cbs))
+	if t.dw != nil {
+		for ci, once := range w.Cbs {
+			ci := ci
+			t.dw.OnPut(func(int) {
+				raceSyncOff()
+				cbCount[ci].Add(1)
+				raceSyncOn()
+				runtime.Gosched()
+				if ci%2 == 1 {
+					time.Sleep(20 * time.Microsecond)
+				}
+			}, once != 0)
+		}
+	}
+	defer func() {
+		for ci := range cbCount {
+			raceSyncOff()
+			out.Cb[ci] = cbCount[ci].Load()
+			raceSyncOn()
+		}
+	}()
 
 	preps := make([]*prepared, n)
 	for i, o := range w.Ops {
